@@ -250,7 +250,8 @@ impl RK23 {
                 ye.copy_from_slice(&y);
                 y.copy_from_slice(&yt);
                 xold = x;
-                x += h;
+                // The last step lands on xend itself: x + (xend - x) can miss it by a rounding error
+                x = if last { xend } else { x + h };
 
                 // An output point requested by the callback (XOut) needs the interpolant of this step too
                 let event = xout.map_or(false, |xo| xo <= x);
